@@ -8,6 +8,12 @@ OptScns == {[kind |-> "option", backend |-> b, okind |-> k, mode |-> m, wfdef |-
               w \in Layer, t \in Layer, a \in Layer}
 OptOK(s) == /\ (s.mode = "target" => s.tmpl = Absent)
             /\ (s.backend = "lsf" => s.okind # "known_none")       \* every LSF option has a default
+(* a second option, spelled like the scheduler's own word for something gwf already has an option for, set at *)
+(* another level: whatever the back end makes of it, no directive may reach the scheduler twice              *)
+TwoOpts == {[kind |-> "twoopts", backend |-> b, known |-> k, other |-> o, otherat |-> l, mode |-> m] :
+              b \in Backends, k \in {"queue", "cores", "memory", "walltime"},
+              o \in {"partition", "ntasks", "cpus_per_task", "mem", "time", "nodes", "q", "n", "W", "M"},
+              l \in {"wfdef", "tmpl", "arg"}, m \in {"target", "template"}}
 SgeMem == {[kind |-> "sgemem", backend |-> "sge", cores |-> c, total |-> m, unit |-> u] : c \in {1, 2, 4}, m \in {8, 1000, 3}, u \in {"g", "m"}}
 
 Cmds == {[c |-> "Echo", tok |-> "plain"], [c |-> "Echo", tok |-> "quotes"], [c |-> "Echo", tok |-> "dollar"], [c |-> "Echo", tok |-> "braces"],
@@ -23,6 +29,7 @@ LogScns == {[kind |-> "logclean", present |-> p, current |-> c, enabled |-> e, d
 
 ASSUME \A s \in OptScns : OptOK(s) => PrintT(ToJson(s))
 ASSUME \A s \in SgeMem : PrintT(ToJson(s))
+ASSUME \A s \in TwoOpts : (s.mode = "target" => s.otherat # "tmpl") => PrintT(ToJson(s))
 (* a run that first submits a target without any option and then one that sets an option: the *)
 (* second target's directive must not depend on what was submitted before it                  *)
 ASSUME \A b \in {"slurm", "sge"}, k \in {"known_none", "known_default"}, a \in {"V1", "V2"} :
